@@ -153,6 +153,18 @@ def meta_sequences():
     return out
 
 
+def reuse_sequences():
+    """a field name freed by a rename and used again by a new field, with changes of both fields around it"""
+    cf = lambda field, *attrs: {'t': 'ChangeField', 'model': 'Alpha', 'field': field, 'ftype': None, 'initial': None,
+                                'attrs': [list(a) for a in attrs]}
+    rn = {'t': 'RenameField', 'model': 'Alpha', 'old': 'b', 'new': 'old_b', 'db_column': None, 'db_table': None}
+    add = {'t': 'AddField', 'model': 'Alpha', 'field': 'b', 'ftype': 'CharField', 'initial': None,
+           'attrs': [['max_length', '30'], ['null', 'true']]}
+    return [[cf('b', ('db_index', 'true')), rn, add, cf('b', ('max_length', '30'))],
+            [cf('b', ('db_index', 'true')), rn, add, cf('b', ('db_index', 'true'))],
+            [cf('b', ('max_length', '25')), rn, add, cf('b', ('db_index', 'true'))]]
+
+
 def run(ctx):
     dj.setup()
     quick = ctx.tier == 'quick'
@@ -189,7 +201,7 @@ def run(ctx):
     ir3 = list(optrig.valid_sequences(sig, ira, 3))
     ctx.rng.shuffle(ir3)
     ir += ir3[:50 if quick else 2000]
-    work = [(spec, q) for q in meta_sequences()] + [(spec2, q) for q in rel] + [(spec, q) for q in ir] + \
+    work = [(spec, q) for q in meta_sequences() + reuse_sequences()] + [(spec2, q) for q in rel] + [(spec, q) for q in ir] + \
         [(spec, q) for q in seqs]
     merge_witness = None
     reqs = []
@@ -220,7 +232,7 @@ def run(ctx):
         worse = [t for t in cb if cb[t] > cs.get(t, 0)]
         if worse and sum(cb.values()) > sum(cs.values()):
             from .c03 import name_reuse, touches_renamed_model
-            if name_reuse(seq) or touches_renamed_model(seq):
+            if (name_reuse(seq) or touches_renamed_model(seq)) and optrig.model_explains_optimiser(ctx, spec, seq):
                 ctx.count('worse_under_name_reuse')
                 ctx.fail(F_REUSE, 'with name reuse the optimised run differs from the one-at-a-time run', rep)
             else:
